@@ -625,11 +625,14 @@ fn reopen(tmp: &Path, w: &Workload, img: &Image, cont: bool) -> Opened {
                 let mut bits = String::new();
                 for (off, p) in &w.recs {
                     RAW_LEN.with(|c| c.set(p.len()));
-                    let ok = match rd.fetch::<Raw>(*off) {
-                        Ok(r) => r.0 == *p
-                            && img.read(*off, 4).is_some_and(|l| l == (p.len() as u32).to_be_bytes()),
-                        Err(_) => false,
-                    };
+                    // a record whose length prefix is not the expected one was overwritten (or never
+                    // reached the disk): do not ask the reader to allocate a garbage length for it
+                    let pre_ok = img.read(*off, 4).is_some_and(|l| l == (p.len() as u32).to_be_bytes());
+                    let ok = pre_ok
+                        && match rd.fetch::<Raw>(*off) {
+                            Ok(r) => r.0 == *p,
+                            Err(_) => false,
+                        };
                     bits.push(if ok { '1' } else { '0' });
                 }
                 out.push_str(&format!(" recs={}", if bits.is_empty() { "-".into() } else { bits }));
